@@ -112,6 +112,9 @@ class Machine(Interp):
                 elif isinstance(val, bool) or val is None or isinstance(val, int):
                     parts.append(str(val))
                 else:
+                    hook = self.spec.opaque_hooks.get("format")
+                    if hook and isinstance(val, Opaque):
+                        hook(self, val)           # formatting runs __format__ / __str__ / __repr__ of the value
                     symbolic = True
         if symbolic:
             return SStr(self.ctx.fresh_str("fstr"))
